@@ -81,7 +81,20 @@ PROPS["C14"] = {
     "partial": "",
 }
 
+PROPS["C03"] = {
+    "gen": ["Stage", "Pyramid"],
+    "trusted_base": ["the multiprocessing model of DESIGN.md §3 (Queue = buffer→feeder→pipe with one reader lock and a bounded semaphore; a get times out only when it cannot take the lock or the pipe is empty; Event = atomic flag; join returns after the target returned) — vf/simmp.py implements exactly this and the Lean model has one transition per simmp step",
+                     "liveness (every fair execution terminates) is not yet a theorem: terminations are observed on every explored schedule, hangs are detected by the simulator"],
+    "assumptions": COMMON_ASSUME + ["callbacks do not raise (C19 covers failures)"],
+    "partial": "termination under fairness (stage_progress) is checked by exploration only",
+}
+
 LEVEL_TEXT = {
+    "C03": {
+        "text": "The producer statement order, queue capacities and the workers' shutdown test are re-extracted from the four stage implementations each run. A transition system with one transition per multiprocessing primitive models producer, feeder and n workers; a 14-clause invariant is proved inductive for every number of workers, capacity, item list and interleaving (time-outs firing whenever a receive is impossible). Corollaries: no item is processed more often than produced (exactly-one worker for distinct items); when the producer has returned all workers have exited, queue and buffers are empty and the processed items are a permutation of the produced ones. The original step order (flag read after an empty poll) is refuted by an 11-step witness. The real visit_leaves / transform / multi_tan / multi_wcs run under a deterministic scheduler (random, biased, and bounded-exhaustive schedules) and every trace is replayed through the Lean transition function; real-process smoke runs.",
+        "note": "trusted: Lean kernel; the multiprocessing semantics stated in DESIGN.md; simmp; fact extraction from the stage sources.",
+        "technique": "Lean 4 proof (inductive invariant over all interleavings) + trace refinement checked by execution",
+    },
     "C14": {
         "text": "How the data range travels is re-extracted from the source each run (save: explicit range else the array's finite range; load: header -> data_min/max; merger: min of the children's mins / max of their maxes over children that exist and carry one; Builder copies the root's). Theorem, by induction over the tile tree with an arbitrary fallback for range-less children: every stored tile records exactly the min and max over all finite leaf values beneath it, and a tile is absent exactly when there are none (all-NaN leaves contribute nothing). Real FITS pyramids (sparse, NaN-laden, exact-zero extremes, leaves built by repeated update_image passes; serial and 3 workers) are cascaded and every header compared with the leaves' float32 range and with the model.",
         "note": "trusted: Lean kernel; textual extraction of the plumbing; astropy FITS headers. Schedule independence is inherited from C02 (cascade_tree).",
